@@ -92,8 +92,10 @@ func (manager *Manager) handler() {
 		case <-manager.stopSyn:
 			log.Debug("CLA Manager received closing signal")
 
+			// The registerMutex is not taken. A registration in progress, perhaps within a long lasting Start, sees
+			// the stop flag afterwards and removes its element itself.
 			manager.convs.Range(func(_, convElem interface{}) bool {
-				manager.Unregister(convElem.(*convergenceElem).conv)
+				manager.unregisterConvergenceLocked(convElem.(*convergenceElem).conv)
 				return true
 			})
 
@@ -131,6 +133,8 @@ func (manager *Manager) handler() {
 			}
 
 		case <-activateTicker.C:
+			// Serialized with the (un)registrations, like them this activates and removes elements.
+			manager.registerMutex.Lock()
 			manager.convs.Range(func(key, convElem interface{}) bool {
 				ce := convElem.(*convergenceElem)
 				if ce.isActive() {
@@ -146,6 +150,7 @@ func (manager *Manager) handler() {
 				}
 				return true
 			})
+			manager.registerMutex.Unlock()
 		}
 	}
 }
@@ -244,7 +249,7 @@ func (manager *Manager) registerConvergence(conv Convergence) {
 		// The Manager might have been closed while this CLA was starting, which may take some time. Its shutdown has
 		// not seen this element then, so it is stopped and removed right here.
 		if manager.isStopped() {
-			manager.unregisterConvergence(conv)
+			manager.unregisterConvergenceLocked(conv)
 		}
 	}
 }
@@ -281,6 +286,17 @@ func (manager *Manager) Unregister(conv Convergable) {
 }
 
 func (manager *Manager) unregisterConvergence(conv Convergence) {
+	// A registration of the same address must not slip in between the deactivation and the removal of the element; it
+	// would re-activate the element, which is then removed although it is running.
+	manager.registerMutex.Lock()
+	defer manager.registerMutex.Unlock()
+
+	manager.unregisterConvergenceLocked(conv)
+}
+
+// unregisterConvergenceLocked is unregisterConvergence for a caller which holds the registerMutex; or for the shutdown,
+// after which each registration in progress cleans up on its own.
+func (manager *Manager) unregisterConvergenceLocked(conv Convergence) {
 	convElem, exists := manager.convs.Load(conv.Address())
 	if !exists {
 		log.WithFields(log.Fields{
